@@ -232,7 +232,12 @@ def gen_pre_case(rng, i):
     nrec = 1 if rng.random() < 0.5 else int(rng.integers(2, 4))
     dmode = [None, "none", "linear", "constant"][int(rng.integers(0, 4))]
     orient = [None, 0.0, float(rng.uniform(-720, 1080)), float(rng.integers(-8, 12) * 45)][int(rng.integers(0, 4))]
-    fnyq = fs / 2
+    # a third of the multi-record calls hand over recordings with DIFFERENT time steps (legal: preprocess only warns): every recording is
+    # filtered and split with its own time step
+    fss = [fs] * nrec
+    if nrec >= 2 and rng.random() < 0.35:
+        fss = [fs] + [int(rng.choice([75, 150, 300, 100, 200, 128, 250, 50, 40, 500])) for _ in range(nrec - 1)]
+    fnyq = min(fss) / 2
     lo = float(round(rng.uniform(0.02, 0.2) * fnyq, 3))
     hi = float(round(rng.uniform(0.4, 0.9) * fnyq, 3))
     fc = [[None, None], [lo, None], [None, hi], [lo, hi]][int(rng.integers(0, 4))]
@@ -248,14 +253,14 @@ def gen_pre_case(rng, i):
     else:
         L = Fraction(int(rng.integers(300, 5000)), 1000)
     lens = []
-    for _ in range(nrec):
-        k = 1 if L is None else max(1, math.floor(L * fs))
+    for fs_r in fss:
+        k = 1 if L is None else max(1, math.floor(L * fs_r))
         m = int(rng.integers(1, 6))
         n = max(64, m * k + int(rng.integers(0, max(1, k))))
         if L is not None and rng.random() < 0.08:
             n = int(rng.integers(64, max(65, k)))  # window longer than the record -> error (when k > n)
         lens.append(n)
-    return dict(kind="pre", fs=fs, L=None if L is None else frac_s(L), lens=lens, detrend=dmode, orient=orient, fc=list(fc),
+    return dict(kind="pre", fs=fs, fss=fss, L=None if L is None else frac_s(L), lens=lens, detrend=dmode, orient=orient, fc=list(fc),
                 fc_tuple=isinstance(fc, tuple), deg0=[float(rng.choice([0.0, 30.0, rng.uniform(0, 360)])) for _ in range(nrec)],
                 sseed=int(rng.integers(0, 2 ** 31)), dt_corrected=bool(i % 5 == 3))
 
@@ -264,9 +269,9 @@ def build_records(case):
     from hvsrpy.timeseries import TimeSeries
     from hvsrpy.seismic_recording_3c import SeismicRecording3C
     r = np.random.default_rng(case["sseed"])
-    dt = 1 / case["fs"]
     recs = []
-    for n, d0 in zip(case["lens"], case["deg0"]):
+    for n, d0, fs_r in zip(case["lens"], case["deg0"], case.get("fss") or [case["fs"]] * len(case["lens"])):
+        dt = 1 / fs_r
         t = np.arange(n) * dt
         comps = [r.normal(0, 1, n) + r.uniform(-3, 3) + r.uniform(-2, 2) * t + np.sin(2 * np.pi * r.uniform(0.5, 5) * t) for _ in range(3)]
         if case.get("dt_corrected"):
@@ -342,10 +347,10 @@ def impl_pre(case):
 
 
 def trace_lines(case):
-    dt = 1 / case["fs"]
     L = None if case["L"] is None else float(parse_frac(case["L"]))
     dd = case["detrend"] is not None and case["detrend"] != "none"
-    return [f"trace {1 if case['orient'] is not None else 0} {fopt(L)} {hexf(dt)} {1 if dd else 0} {n}" for n in case["lens"]]
+    fss = case.get("fss") or [case["fs"]] * len(case["lens"])
+    return [f"trace {1 if case['orient'] is not None else 0} {fopt(L)} {hexf(1 / fs_r)} {1 if dd else 0} {n}" for n, fs_r in zip(case["lens"], fss)]
 
 
 def parse_trace(line):
@@ -359,10 +364,9 @@ def oracle_pre(case):
     """documented order with the real scipy primitives, outside hvsrpy; k from exact rational arithmetic"""
     from scipy.signal import butter, sosfiltfilt, detrend
     recs = build_records(case)
-    fs = case["fs"]
     L = None if case["L"] is None else parse_frac(case["L"])
     out = []
-    for rec in recs:
+    for rec, fs in zip(recs, case.get("fss") or [case["fs"]] * len(recs)):
         ns, ew, vt = rec.ns.amplitude.copy(), rec.ew.amplitude.copy(), rec.vt.amplitude.copy()
         deg = rec.degrees_from_north
         if case["orient"] is not None:
@@ -447,8 +451,7 @@ def check_pre(ctx, case, mo_lines):
     ctx.supporting["oracle_cases"] = ctx.supporting.get("oracle_cases", 0) + 1
     if isinstance(orc, str) or err is not None:
         if not (isinstance(orc, str) and err is not None):
-            L = parse_frac(case["L"]) * case["fs"]
-            if ambiguous(L):
+            if any(ambiguous(parse_frac(case["L"]) * fs_r) for fs_r in (case.get("fss") or [case["fs"]])):
                 ctx.near_tie_skipped += 1
                 return True
             ctx.violation("window-longer-than-record-is-an-error", dict(rp, oracle=str(orc)[:80]), seam="hvsrpy.preprocess vs scipy oracle")
@@ -550,9 +553,10 @@ def run(ctx):
         else:
             L = None if c["L"] is None else parse_frac(c["L"]) * c["fs"]
             nontriv = L is None or L.denominator == 1 or any((n // max(1, math.floor(L))) >= 2 and (n - (n // max(1, math.floor(L))) * math.floor(L) - 1) > 0 for n in c["lens"])
-            ctx.case(("pre", c["fs"], c["L"], c["lens"], c["detrend"], c["orient"], c["fc"], c["sseed"]), nontriv,
+            ctx.case(("pre", c.get("fss", c["fs"]), c["L"], c["lens"], c["detrend"], c["orient"], c["fc"], c["sseed"]), nontriv,
                      sample=dict(case=c))
             ctx.count("pre:nrec=%d" % len(c["lens"]))
+            ctx.count("pre:time-steps=" + ("mixed" if len(set(c.get("fss") or [c["fs"]])) > 1 else "one"))
             ctx.count("pre:detrend=%s" % c["detrend"])
             ctx.count("pre:fc=" + "".join("N" if v is None else "v" for v in c["fc"]))
             ctx.count("pre:orient=" + ("None" if c["orient"] is None else "set"))
